@@ -356,6 +356,53 @@ def check_shapes(ctx):
             key = '%s/%s' % ('list-of-frames' if lst else 'single-frame', 'one-measurement' if m1 else 'several-measurements')
             ctx.ob('R15.1-axis-alignment', key, not it.problems, ctx.loc('inference_setup', f),
                    'the data array has axes (trajectory, time, measured species); every reshape keeps the axis order', '; '.join(it.problems))
+    # the time axis handed on is the data's own time column, unchanged: "each trajectory is simulated at its own time points"
+    def time_value(e, seen=()):
+        """None if the expression is the time column of a frame (through array conversions and locals assigned only such values)"""
+        e = util.strip_cast(e)
+        if isinstance(e, ast.Call) and isinstance(e.func, ast.Attribute) and e.func.attr in ('flatten', 'ravel', 'copy', 'to_numpy') and not e.args:
+            return time_value(e.func.value, seen)
+        if isinstance(e, ast.Call) and src(e.func) in ('np.array', 'np.asarray', 'numpy.array', 'numpy.asarray', 'list') and e.args:
+            return time_value(e.args[0], seen)
+        if isinstance(e, ast.Call) and isinstance(e.func, ast.Attribute) and e.func.attr == 'get' and len(e.args) == 1 and src(e.args[0]) == 'self.time_column':
+            return None
+        if isinstance(e, ast.Subscript) and src(e.slice) == 'self.time_column':
+            return None
+        if isinstance(e, ast.Name) and e.id not in seen:
+            defs_ = [n_ for n_ in ast.walk(f) if isinstance(n_, (ast.Assign, ast.AugAssign)) and
+                     any(isinstance(t_, ast.Name) and t_.id == e.id for t_ in (n_.targets if isinstance(n_, ast.Assign) else [n_.target]))]
+            if not defs_:
+                return 'the value of %s is not defined here' % e.id
+            for d_ in defs_:
+                if isinstance(d_, ast.AugAssign):
+                    return '`%s` changes the time values' % util.stmt_key(d_)[:60]
+                r_ = time_value(d_.value, seen + (e.id,))
+                if r_ is not None:
+                    return r_
+            return None
+        return '`%s` is not the time column of the data' % src(e)[:60]
+    t_problems = []
+    n_sinks = 0
+    for n_ in ast.walk(f):
+        if isinstance(n_, ast.Assign) and any(src(t_) == 'self.timepoints' for t_ in n_.targets):
+            n_sinks += 1
+            v_ = n_.value
+            if isinstance(v_, ast.Name) and any(isinstance(d_, ast.Assign) and any(src(t_) == v_.id for t_ in d_.targets) and isinstance(d_.value, ast.List)
+                                                and not d_.value.elts for d_ in ast.walk(f)):
+                apps = [c_ for c_ in ast.walk(f) if isinstance(c_, ast.Call) and isinstance(c_.func, ast.Attribute) and c_.func.attr == 'append'
+                        and src(c_.func.value) == v_.id]
+                if not apps:
+                    t_problems.append('nothing is put into %s' % v_.id)
+                for c_ in apps:
+                    r_ = time_value(c_.args[0])
+                    if r_ is not None:
+                        t_problems.append(r_)
+            else:
+                r_ = time_value(v_)
+                if r_ is not None:
+                    t_problems.append(r_)
+    ctx.ob('R15.1-axis-alignment', 'time-axis', not t_problems and n_sinks >= 2, ctx.loc('inference_setup', f),
+           "the time points kept for a trajectory are the values of its data frame's time column, unchanged", '; '.join(sorted(set(t_problems))[:3]))
     # BulkData.set_data keeps the layout
     f = ctx.fn('inference:BulkData.set_data')
     txt = [util.stmt_key(s).replace(' ', '') for s in f.body]
